@@ -35,12 +35,62 @@ fn kind_text(e: &quandary::zone_file::Error) -> (String, usize) {
     }
 }
 
+/// A stream that delivers `data` in the given piece sizes (short reads), and
+/// whatever is left in one piece once the list is used up. A piece larger
+/// than the caller's buffer is continued by the next call.
+pub struct Pieces<'a> {
+    data: &'a [u8],
+    pos: usize,
+    pieces: &'a [usize],
+    next: usize,
+    left_in_piece: usize,
+    pub calls: usize,
+}
+
+impl<'a> Pieces<'a> {
+    pub fn new(data: &'a [u8], pieces: &'a [usize]) -> Pieces<'a> {
+        Pieces { data, pos: 0, pieces, next: 0, left_in_piece: 0, calls: 0 }
+    }
+}
+
+impl std::io::Read for Pieces<'_> {
+    fn read(&mut self, buf: &mut [u8]) -> std::io::Result<usize> {
+        self.calls += 1;
+        if self.left_in_piece == 0 {
+            self.left_in_piece = match self.pieces.get(self.next) {
+                Some(n) => *n,
+                None => usize::MAX,
+            };
+            self.next += 1;
+        }
+        let n = self.left_in_piece.min(buf.len()).min(self.data.len() - self.pos);
+        buf[..n].copy_from_slice(&self.data[self.pos..self.pos + n]);
+        self.pos += n;
+        if self.left_in_piece != usize::MAX {
+            self.left_in_piece -= n;
+        }
+        if self.pos == self.data.len() {
+            self.left_in_piece = 0;
+        }
+        Ok(n)
+    }
+}
+
 /// Parses `bytes` with `quandary::zone_file::Parser`. `Err` = panic message.
 pub fn parse_bytes(bytes: &[u8]) -> Result<Parsed, String> {
-    catch(|| {
+    parse_stream(Cursor::new(bytes), bytes.len())
+}
+
+/// Same, from a stream that delivers the octets in the given piece sizes.
+pub fn parse_pieces(bytes: &[u8], pieces: &[usize]) -> Result<Parsed, String> {
+    parse_stream(Pieces::new(bytes, pieces), bytes.len())
+}
+
+fn parse_stream<R: std::io::Read>(stream: R, len: usize) -> Result<Parsed, String> {
+    catch(move || {
         let mut out = Parsed::default();
-        let bound = bytes.len() + 2;
-        let mut p = Parser::new(Cursor::new(bytes));
+        let bound = len + 2;
+        let mut p = Parser::new(stream);
         loop {
             match p.next() {
                 None => break,
